@@ -89,9 +89,10 @@ CLAIMED["C07"] = dict(
     technique="machine-checked proof in Coq (structural recursion on the input, include-depth measure) + model/implementation correspondence by vm_compute")
 CLAIMED["C06"] = dict(
     text="Coq theorems: the parser model refines the RFC 1035 5.1 denotation of abstract zones (owner/TTL/class inheritance, $ORIGIN, "
-         "$TTL, name completion, TTL units), $GENERATE expansion, $INCLUDE splice keeps the includer's origin; text-to-token "
-         "rendering equivalence by per-case check (partial); models tied to /repo by vm_compute correspondence over random zones x "
-         "equivalent renderings",
+         "$TTL, name completion, TTL units), $GENERATE expansion, $INCLUDE splice keeps the includer's origin; from TEXT: the lexer "
+         "model turns every rendering of a zone (single blanks, or any layout of blanks, tabs, parentheses over several lines, CR, "
+         "trailing comments) into tokens realizing the zone's skeleton, hence parser(lexer(text)) = the denoted records; richer "
+         "layouts by equivalence oracle; models tied to /repo by vm_compute correspondence over random zones x equivalent renderings",
     technique="machine-checked proof in Coq (refinement of a denotational fold by the parser state machine) + model/implementation correspondence by vm_compute")
 CLAIMED["C02"] = dict(
     text="Coq theorems for EVERY octet string (no length bound): the name decoder, every generated RDATA decoder (any field "
